@@ -9,11 +9,16 @@ from harness.props import recording_lib as rl
 from harness.props.recording_check import RecordingCheck
 from harness.props.recording_lib import FCRASH, FFAIL, FOK, Tree, World
 
-K_RETRY = "stale-shallow-hit:transient-error@record_call_node:final-commit"
-K_CRASH = "stale-shallow-hit:crash@record_call_node:after-CallNode-commit"
-K_IMPORT = "stale-shallow-hit:imported-call-node:no-subtree-rows"
-K_CSE = "stale-shallow-hit:cse-replayed-child:subtree-tasks-not-inherited"
-K_MIXED = "stale-shallow-hit:transient-error@record_call_node:final-commit+cse-replay-of-that-call-node"
+# finding keys: <no-fault | import | crash | transient-error>[@<outermost backend operation of the faulted commit>]:<outcome class>
+# outcome classes: stale-shallow-hit (the looked-up call node itself is replayed although its recorded subtree changed) and
+# stale-shallow-hit-via-cse-replay (the workload replays a job by CSE from a call node whose rows the fault lost; the parent
+# of the replayed job then records an incomplete subtree set). Workload, commit index and values are in the text / replay.
+def fault_key(kind, site, via_cse):
+    return f"{kind}@{(site or '?').split('>')[0]}:stale-shallow-hit" + ("-via-cse-replay" if via_cse else "")
+
+
+K_NOFAULT = "no-fault:stale-shallow-hit"
+K_IMPORT = "import:stale-shallow-hit"
 
 
 class Check(RecordingCheck):
@@ -38,6 +43,7 @@ class Check(RecordingCheck):
         cwd = os.getcwd()
         os.chdir(work)
         self._expected = {}
+        self._cse = {}
         n = 0
         try:
             rl.quiet()
@@ -53,7 +59,7 @@ class Check(RecordingCheck):
                 n += 1
                 if (o["edited"][0] == "ok" and o["stale_edited"]) or (o["same"][0] == "ok" and o["stale_same"]):
                     self.findings.append(Finding(
-                        f"stale-shallow-hit:no-fault:{name}", f"workload {name}, no fault: after editing leaf the run returns "
+                        K_NOFAULT, f"workload {name}, no fault: after editing leaf the run returns "
                         f"{o['edited'][1]!r}, a fresh backend {o['expected_edited'][1]!r}", {"kind": "e2e", "workload": name, "plan": []}))
             names = ["chain"] if self.tier == "quick" else list(rl.MODELLED_WORKLOADS)
             for name in names:
@@ -72,11 +78,9 @@ class Check(RecordingCheck):
                         # C03 is about replaying a stale result; a recovery run that dies is C22's business
                         stale = (o["edited"][0] == "ok" and o["stale_edited"]) or (o["same"][0] == "ok" and o["stale_same"])
                         if stale:
-                            final = o["site"] == "record_call_node"
-                            key = (K_RETRY if fate == FFAIL else K_CRASH) if (final or fate == FCRASH) else \
-                                f"stale-shallow-hit:transient-error@{o['site']}"
                             self.findings.append(Finding(
-                                key, f"after a {'transient error' if fate == FFAIL else 'crash'} at commit {i} ({o['site']}) of "
+                                fault_key("transient-error" if fate == FFAIL else "crash", o["site"], self.has_cse(name, work)),
+                                f"after a {'transient error' if fate == FFAIL else 'crash'} at commit {i} ({o['site']}) of "
                                      f"workload {name}, the run after editing leaf returns {o['edited'][1]!r}, a fresh backend {o['expected_edited'][1]!r}",
                                 {"kind": "e2e", "workload": name, "plan": [FOK] * i + [fate]}))
         finally:
@@ -104,11 +108,11 @@ class Check(RecordingCheck):
         finals = [i for i, _, site in log if site == "record_call_node"]
         # the final commit of the record_call_node of the first `top` job: the 3rd call node recorded (leaf, mid, top)
         i = finals[2]
-        for fate, key in ((FFAIL, K_RETRY), (FCRASH, K_CRASH)):
+        for fate in (FFAIL, FCRASH):
             o = self.e2e(name, [FOK] * i + [fate], work, "w")
-            if o["stale_edited"]:
+            if o["edited"][0] == "ok" and o["stale_edited"]:
                 self.findings.append(Finding(
-                    key, f"{'transient OperationalError' if fate == FFAIL else 'process death'} at the final commit of "
+                    fault_key("transient-error" if fate == FFAIL else "crash", o["site"], False), f"{'transient OperationalError' if fate == FFAIL else 'process death'} at the final commit of "
                          f"record_call_node(top): after editing leaf the shallow-cached top replays {o['edited'][1]!r}, "
                          f"a fresh backend gives {o['expected_edited'][1]!r}",
                     {"kind": "e2e", "workload": name, "plan": [FOK] * i + [fate]}))
@@ -125,20 +129,46 @@ class Check(RecordingCheck):
         finals = [i for i, _, site in log if site == "record_call_node"]
         i = finals[1]                                        # call nodes are recorded in the order leaf, mid, a, ...
         base = self.e2e(name, [], work, "wm0")
-        o = self.e2e(name, [FOK] * i + [FFAIL], work, "wm")
-        if o["edited"][0] == "ok" and o["stale_edited"] and not base["stale_edited"]:
-            self.findings.append(Finding(
-                K_MIXED, f"one transient OperationalError at the last commit of record_call_node(mid): mid's CallSubtreeTask rows are lost "
-                         f"(early exit on retry); p's call of mid is replayed by CSE from that call node and inherits no subtree tasks; "
-                         f"after editing leaf the shallow-cached p replays {o['edited'][1]!r}, a fresh backend gives {o['expected_edited'][1]!r}",
-                {"kind": "e2e", "workload": name, "plan": [FOK] * i + [FFAIL]}))
-        return 2
+        for fate in (FFAIL, FCRASH):
+            kind = "transient-error" if fate == FFAIL else "crash"
+            o = self.e2e(name, [FOK] * i + [fate], work, "wm")
+            if o["edited"][0] == "ok" and o["stale_edited"] and not base["stale_edited"]:
+                self.findings.append(Finding(
+                    fault_key(kind, o["site"], True),
+                    f"{kind} at the last commit of record_call_node(mid) (commit {i} of workload cse): mid's CallSubtreeTask rows are lost "
+                    f"(early exit on retry / re-execution); p's call of mid is replayed by CSE from that call node and inherits no subtree "
+                    f"tasks; after editing leaf the shallow-cached p replays {o['edited'][1]!r}, a fresh backend gives {o['expected_edited'][1]!r}",
+                    {"kind": "e2e", "workload": name, "plan": [FOK] * i + [fate]}))
+        return 3
+
+    def has_cse(self, name, work):
+        """Does the fault-free run of this workload replay a job by CSE?"""
+        if name not in self._cse:
+            from redun.backends.base import CacheResult
+            expr, ns = rl.define_workload(name, rl.LEAF_V1[name])
+            s = rl.make_scheduler(rl.fresh_db(str(work), f"cse_{name}.db"))
+            seen = []
+            orig = s.backend.check_cache
+
+            def check_cache(*a, **k):
+                r = orig(*a, **k)
+                seen.append(r[2])
+                return r
+            s.backend.check_cache = check_cache
+            import contextlib
+            import io
+            with contextlib.redirect_stderr(io.StringIO()):
+                s.run(expr)
+            rl.close_backend(s.backend)
+            self._cse[name] = CacheResult.CSE in seen
+            self.stat("workload_replays_by_cse", f"{name}={self._cse[name]}")
+        return self._cse[name]
 
     def witness_cse(self, work):
         o = self.e2e("cse", [], work, "wc")
         if o["stale_edited"]:
             self.findings.append(Finding(
-                K_CSE, f"no fault: p (shallow) calls mid, replayed by CSE from a's call of mid; p's subtree rows miss leaf "
+                K_NOFAULT, f"no fault: p (shallow) calls mid, replayed by CSE from a's call of mid; p's subtree rows miss leaf "
                        f"({o['incomplete']}); after editing leaf the run returns {o['edited'][1]!r}, a fresh backend {o['expected_edited'][1]!r}",
                 {"kind": "e2e", "workload": "cse", "plan": []}))
         return 1
